@@ -35,6 +35,7 @@ pub struct Weights {
     pub custom_set: u32,
     pub class_remove: u32,
     pub ext_id: u32,
+    pub claim_map: u32,
     pub advance_small: u32,
     pub advance_big: u32,
     pub repl: u32,
@@ -150,7 +151,7 @@ pub fn gen_op(rng: &mut Rng, n_rep: usize, n_home: usize, p: &Profile, created: 
         w.create, w.create_pair, w.create_bad_spn, w.rename, w.set_desc, w.add_desc_multi, w.add_member, w.rem_member,
         w.set_manager, w.scope_map, w.dyn_filter, w.delete, w.revive, w.purge_recycled, w.purge_tombstones, w.reindex,
         w.domain_rename, w.spn_tamper, w.abort, w.schema_attr, w.schema_class, w.ill_formed, w.custom_set, w.class_remove,
-        w.advance_small, w.advance_big, w.repl, w.refresh, w.restart, w.ext_id,
+        w.advance_small, w.advance_big, w.repl, w.refresh, w.restart, w.ext_id, w.claim_map,
     ];
     let r = rng.usize(n_rep);
     let pop = &p.pop;
@@ -226,7 +227,11 @@ pub fn gen_op(rng: &mut Rng, n_rep: usize, n_home: usize, p: &Profile, created: 
                 if !p.file_backed { continue; }
                 Op::Restart { r: 0 }
             }
-            _ => Op::ExtId { r, obj: pick_obj(rng, &pop.named()), val: if rng.chance(1, 4) { None } else { Some(rng.below(4) as u8) } },
+            29 => Op::ExtId { r, obj: pick_obj(rng, &pop.named()), val: if rng.chance(1, 4) { None } else { Some(rng.below(4) as u8) } },
+            _ => {
+                if pop.oauths == 0 { continue; }
+                Op::ClaimMap { r, oauth: pick_obj(rng, &pop.of(Kind::OAuth2)), claim: rng.below(2) as u8, grp: any_target(rng, pop), remove: rng.chance(1, 5) }
+            }
         };
         return op;
     }
